@@ -34,7 +34,8 @@ AnyAcct(h) == IF nv > 0 /\ Pick(1..4, h) = 1 THEN Pick(VestAccts, h)
 \* governance proposal that disables conversion of one pair, a contract with storage, an account with
 \* storage but empty code, DAO shares and a fresh delegation.
 Blk(dt, txs) == [ev |-> "block", dt |-> dt, proposer |-> 0, absent |-> <<>>, evidence |-> <<>>, txs |-> txs]
-VC(f, to) == <<[k |-> "vest_create", from |-> f, to |-> to, amt |-> "3000000000000000000000", lock |-> 3000, vest |-> 1, startOff |-> -20, merge |-> FALSE],
+VC(f, to) == <<[k |-> "vest_create", from |-> f, to |-> to, amt |-> "3000000000000000000000", lock |-> 3000, vest |-> 1, startOff |-> -20, merge |-> FALSE,
+                 dust |-> (IF to = "vx1" THEN "1" ELSE "0")],
                [k |-> "send", from |-> f, to |-> to, amt |-> "1000000000000000000"]>>
 Prologue == <<
     Blk(5000, VC("a1", "vx1") \o VC("a2", "vx2") \o
@@ -60,14 +61,18 @@ Prologue == <<
               \* C19: coinomics is switched off by governance (minting has run for three blocks by then)
               \o (IF Exports THEN <<[k |-> "gov_coinomics", from |-> "a2", enable |-> FALSE],
                     [k |-> "gov_vote", from |-> "v1", id |-> 2, opt |-> "yes"], [k |-> "gov_vote", from |-> "v2", id |-> 2, opt |-> "yes"],
-                    [k |-> "gov_vote", from |-> "v3", id |-> 2, opt |-> "yes"]>> ELSE <<>>)),
+                    [k |-> "gov_vote", from |-> "v3", id |-> 2, opt |-> "yes"],
+                    \* ... and a parameter is moved to a legal zero (the minimum-gas multiplier of the fee market)
+                    [k |-> "gov_params", from |-> "a3", which |-> "fm_mult0", enable |-> FALSE],
+                    [k |-> "gov_vote", from |-> "v1", id |-> 3, opt |-> "yes"], [k |-> "gov_vote", from |-> "v2", id |-> 3, opt |-> "yes"],
+                    [k |-> "gov_vote", from |-> "v3", id |-> 3, opt |-> "yes"]>> ELSE <<>>)),
     \* ... and the validator it unbonds from then turns out to have double-signed: the slash reaches the fresh unbonding entry
     \* (25 s: the voting period of 20 s is over, the unbonding time of 60 s is not)
     [Blk(25000, <<[k |-> "send", from |-> "a5", to |-> "a4", amt |-> "1000"], [k |-> "spray", from |-> "a3", salt |-> 0]>>) EXCEPT !.evidence = <<1>>] >>
     \o (IF Exports THEN <<[ev |-> "export_import"]>> ELSE <<>>)
 
 Init == /\ hist = Prologue
-        /\ nv = 2 /\ nc = 2 /\ nl = 3 /\ np = (IF Exports THEN 2 ELSE 1) /\ blocks = 4
+        /\ nv = 2 /\ nc = 2 /\ nl = 3 /\ np = (IF Exports THEN 3 ELSE 1) /\ blocks = 4
         /\ dels = {<<"v1", 0>>, <<"v2", 1>>, <<"v3", 2>>} \cup {<<"a6", 0>>}  \* (delegator, validator index) pairs believed to exist
         /\ vfund = {<<"vx1", "a1">>, <<"vx2", "a2">>}     \* (vesting account, funder) pairs
         /\ daoh = {"a5"}                                  \* accounts believed to hold DAO shares
@@ -83,6 +88,9 @@ Ag(h) == IF agr # {} /\ Pick(1..5, h) # 1 THEN Pick(agr, h) ELSE <<Pick(Accts, h
 Fg(h) == IF fgr # {} /\ Pick(1..5, h) # 1 THEN Pick(fgr, h) ELSE <<Pick(Accts, h), Pick(Accts, h)>>
 Appr(h) == IF appr # {} /\ Pick(1..5, h) # 1 THEN Pick(appr, h) ELSE Pick(Accts, h)     \* accounts believed to have approved the agent
 Liq(h) == IF liq # {} /\ Pick(1..5, h) # 1 THEN Pick(liq, h) ELSE <<Pick(0..1, h), Pick(Accts, h)>>
+
+ParamEdges == {"fm_mult0", "fm_mult1", "fm_nobasefee", "fm_elasticity1", "fm_minprice", "erc20_hook", "distr_zero", "slash_zero",
+               "staking_edge", "evm_channels", "gov_flags", "lv_edge", "lv_off", "coin_coeff0"}
 
 \* one transaction; `slot` distinguishes the draws inside one block
 TxOfKind(h, k, f, d, q, vf) ==
@@ -103,10 +111,11 @@ TxOfKind(h, k, f, d, q, vf) ==
       [] k = 13 -> [k |-> "withdraw", from |-> d[1], val |-> d[2]]
       [] k = 14 -> [k |-> "set_withdraw", from |-> f, to |-> Pick(Accts, h)]
       [] k = 15 -> [k |-> "vest_create", from |-> f, to |-> VestName(nv + 1), amt |-> "3000000000000000000000",
-                    lock |-> Pick({5, 30, 300, 300}, h), vest |-> Pick({1, 1, 5, 40}, h), startOff |-> Pick({-20, 0, 10}, h), merge |-> FALSE]
+                    lock |-> Pick({5, 30, 300, 300}, h), vest |-> Pick({1, 1, 5, 40}, h), startOff |-> Pick({-20, 0, 10}, h), merge |-> FALSE,
+                    dust |-> Pick({"0", "0", "1", "7"}, h)]
       [] k = 16 -> IF nv = 0 THEN [k |-> "dao_fund", from |-> f, amt |-> "5"]
                    ELSE [k |-> "vest_create", from |-> vf[2], to |-> vf[1], amt |-> "2000000000000000000000",
-                         lock |-> Pick({5, 30}, h), vest |-> Pick({1, 5}, h), startOff |-> Pick({-20, 0, 10}, h), merge |-> TRUE]
+                         lock |-> Pick({5, 30}, h), vest |-> Pick({1, 5}, h), startOff |-> Pick({-20, 0, 10}, h), merge |-> TRUE, dust |-> "0"]
       [] k = 17 -> IF nv = 0 THEN [k |-> "send", from |-> f, to |-> "a1", amt |-> "1"]
                    ELSE [k |-> "clawback", from |-> vf[2], acct |-> vf[1]]
       [] k = 18 -> IF nv = 0 THEN [k |-> "send", from |-> f, to |-> "a2", amt |-> "1"]
@@ -153,12 +162,17 @@ TxOfKind(h, k, f, d, q, vf) ==
                     ping |-> Pick({"none", "notbonded", "notbonded", "bonded", "distr", "fresh"}, h)]
       [] k = 52 -> [k |-> "send_mod", from |-> f, mod |-> Pick(0..6, h), amt |-> Pick({"1", "1000000000000000000"}, h)]
       [] k = 53 -> [k |-> "gov_erc20_params", from |-> f, enable |-> (Pick(1..3, h) = 1)]
+      \* governance moves the parameters of a module to legal edge values (zero, empty, the other flag)
+      [] k = 54 -> [k |-> "gov_params", from |-> f, which |-> Pick(ParamEdges, h), enable |-> (Pick(1..2, h) = 1)]
+      \* the ERC20 `transfer` of a registered pair, to an account or to the erc20 module address (conversion by the EVM hook)
+      [] k = 55 -> [k |-> "erc20_xfer", from |-> q[2], to |-> (IF Pick(1..2, h) = 1 THEN "mod:erc20" ELSE Pick(Accts, h)), id |-> q[1],
+                    amt |-> Pick({"1", "500", "400000000000000000000"}, h)]
       [] k = 46 -> [k |-> "gov_coinomics", from |-> f, enable |-> (Pick(1..2, h) = 1)]
       [] k = 47 -> [k |-> "dao_scatter", from |-> DaoH(h), n |-> Pick({3, 40}, h), salt |-> Len(h), amt |-> "1000"]
 
-KindOf(k0) == IF k0 <= 53 THEN k0
-              ELSE IF k0 <= 54 THEN 38 ELSE IF k0 = 55 THEN 41 ELSE IF k0 = 56 THEN 42 ELSE IF k0 <= 58 THEN 51 ELSE IF k0 = 59 THEN 49 ELSE 8
-RandTx(h, slot) == TxOfKind(h, KindOf(Pick(1..60, h)), Pick(Accts, h), Del(h), Liq(h), Vf(h))
+KindOf(k0) == IF k0 <= 55 THEN k0
+              ELSE IF k0 <= 56 THEN 38 ELSE IF k0 = 57 THEN 41 ELSE IF k0 = 58 THEN 42 ELSE IF k0 <= 60 THEN 51 ELSE IF k0 = 61 THEN 49 ELSE 8
+RandTx(h, slot) == TxOfKind(h, KindOf(Pick(1..62, h)), Pick(Accts, h), Del(h), Liq(h), Vf(h))
 
 NewVest(txs)   == Cardinality({j \in DOMAIN txs : txs[j].k = "vest_create" /\ txs[j].merge = FALSE})
 Count(txs, kk) == Cardinality({j \in DOMAIN txs : txs[j].k = kk})
@@ -169,12 +183,12 @@ WithTopUps(txs) ==
           IF j = 0 THEN <<>>
           ELSE IF txs[j].k = "vest_create" /\ txs[j].merge = FALSE
                THEN F[j-1] \o <<txs[j], [k |-> "send", from |-> txs[j].from, to |-> txs[j].to, amt |-> "1000000000000000000"]>>
-               ELSE IF txs[j].k \in {"gov_toggle", "gov_evm_params", "gov_coinomics", "gov_erc20_params"}
+               ELSE IF txs[j].k \in {"gov_toggle", "gov_evm_params", "gov_coinomics", "gov_erc20_params", "gov_params"}
                THEN F[j-1] \o <<txs[j]>> \o [v \in 1..3 |-> [k |-> "gov_vote", from |-> "v" \o ToString(v),
-                                                             id |-> np + 1 + Cardinality({y \in 1..(j-1) : txs[y].k \in {"gov_submit", "gov_submit2", "gov_toggle", "gov_evm_params", "gov_coinomics", "gov_erc20_params"}}), opt |-> "yes"]]
+                                                             id |-> np + 1 + Cardinality({y \in 1..(j-1) : txs[y].k \in {"gov_submit", "gov_submit2", "gov_toggle", "gov_evm_params", "gov_coinomics", "gov_erc20_params", "gov_params"}}), opt |-> "yes"]]
                ELSE IF txs[j].k = "gov_submit2"
                THEN F[j-1] \o <<txs[j]>> \o [v \in 1..3 |-> [k |-> "gov_vote", from |-> "v" \o ToString(v),
-                                                             id |-> np + 1 + Cardinality({y \in 1..(j-1) : txs[y].k \in {"gov_submit", "gov_submit2", "gov_toggle", "gov_evm_params", "gov_coinomics", "gov_erc20_params"}}), opt |-> "veto"]]
+                                                             id |-> np + 1 + Cardinality({y \in 1..(j-1) : txs[y].k \in {"gov_submit", "gov_submit2", "gov_toggle", "gov_evm_params", "gov_coinomics", "gov_erc20_params", "gov_params"}}), opt |-> "veto"]]
                ELSE Append(F[j-1], txs[j])
     IN F[Len(txs)]
 
@@ -194,7 +208,7 @@ Block ==
        /\ nv' = nv + NewVest(one)
        /\ nc' = nc + Count(one, "deploy")
        /\ nl' = nl + Count(one, "liquidate")
-       /\ np' = np + Count(one, "gov_submit") + Count(one, "gov_submit2") + Count(one, "gov_toggle") + Count(one, "gov_evm_params") + Count(one, "gov_coinomics") + Count(one, "gov_erc20_params")
+       /\ np' = np + Count(one, "gov_submit") + Count(one, "gov_submit2") + Count(one, "gov_toggle") + Count(one, "gov_evm_params") + Count(one, "gov_coinomics") + Count(one, "gov_erc20_params") + Count(one, "gov_params")
        /\ blocks' = blocks + 1
        /\ dels' = dels \cup {<<one[j].from, one[j].val>> : j \in {x \in DOMAIN one : one[x].k \in {"delegate", "pc_delegate", "agent_delegate"}}}
                         \cup {<<one[j].from, one[j].val2>> : j \in {x \in DOMAIN one : one[x].k = "redelegate"}}
